@@ -187,6 +187,11 @@ pub fn c14(s: &mut Sess, rng: &mut Rng, n: u64) {
         // … or restart straight after the failed operation: the image the failed call left is all
         // the next open has (nothing is healed by a later checkpoint)
         if i % 4 == 3 { cont.clear(); s.out.count("cont.none"); }
+        // … except every other first-rollover target: there the failed call may have left memory
+        // ahead of the disk (e.g. `last_persisted_version` set before the snapshot write failed), and
+        // an explicit checkpoint as the very next call acts on that memory — it must not prune the
+        // only copy of the earlier operations
+        if i % 16 == 11 { cont.push(Op::Checkpoint); s.out.count("cont.checkpoint-after-first-rollover-fault"); }
         let Some(nev) = run(s, &cfg, &ops, target, target_line, 1_000_000, &cont) else { continue };
         s.out.add("fault.points", nev);
         for k in 0..nev {
